@@ -48,12 +48,12 @@ EAGER_IMPORT_POS = [p for p in IMPORT_POS if p not in NOT_EAGER]
 EAGER_INCLUDE_POS = [p for p in INCLUDE_POS if p not in NOT_EAGER]
 
 # Inputs of the families below on which the real code (pinned HEAD) violates the property; projects of a listed class are skipped.
-#  'cycle-through-dotdot': a cyclic project in which an import expression ON the cycle is spelled with a `..` segment (i.e. nearly every
-#      cycle that crosses directories).  HEAD compares un-normalised joined paths in both cycle checks, so `/p/app/../lib/../app/main.ucg`
-#      is not recognised as `/p/app/main.ucg`:  a.ucg `let b = import "lib/b.ucg";` + lib/b.ucg `let a = import "../a.ucg";` overflows the
-#      stack (SIGABRT); through a selector / callback / module it re-imports until the path exceeds PATH_MAX and ends with
-#      "File name too long (os error 36)" - no import-cycle diagnostic (clause 3 of the statement).  Reported; remove the entry once fixed.
-KNOWN = ['cycle-through-dotdot']
+# Empty on the current HEAD.  History: the class 'cycle-through-dotdot' (a cyclic project in which an import expression ON the cycle is
+# spelled with a `..` segment, i.e. nearly every cycle that crosses directories) was found by this module: both cycle checks compared
+# un-normalised joined paths, so `/p/app/../lib/../app/main.ucg` was not recognised as `/p/app/main.ucg`; a.ucg `let b = import "lib/b.ucg";`
+# + lib/b.ucg `let a = import "../a.ucg";` overflowed the stack (SIGABRT), through a selector / callback / module the files were re-imported
+# until the path exceeded PATH_MAX ("File name too long (os error 36)").  Fixed in /repo by 3b19e40; the class is checked again.
+KNOWN = []
 
 
 def known(pr):
@@ -608,7 +608,7 @@ def random_project(rnd, idx, cyclic=False, flat=False):
 
 def standin_random_dags(tier, seed):
     rnd = random.Random(seed * 7919 + 17)
-    k = 110 if tier == 'thorough' else 8
+    k = 110 if tier == 'thorough' else 6
     return run_all('random_dags', 'random project trees (seed %d): 2..8 files in 2..5 of 7 nested directories, random DAG with every file imported at an evaluated position, '
                    '0..n extra imports (repeats, let constraints), 0..3 includes, random position and random spelling per expression, a quarter ends in a fail message'
                    % seed, [random_project(rnd, i) for i in range(k)])
@@ -619,32 +619,39 @@ def cycle_projects(tier, seed):
     out = []
     cpos = EAGER_IMPORT_POS + ['fail']
     sel = cpos if tier == 'thorough' else ['top', 'topsel', 'func', 'modbody', 'modout']
-    # (i) cycles among files of ONE directory, spelled without `..`
+    # (i) cycles among files of ONE directory, spelled without `..`  (quick: the two shapes alternate over the positions)
+    quick = tier != 'thorough'
     for n, p in enumerate(cpos):
         d = ['', './', './././'][n % 3]
-        out.append(project('2-cycle main <-> b in one directory at position %s' % p,
-                           [F('app/main.ucg', 1, [('import', '../lib/ok.ucg', 'top'), ('import', d + 'b.ucg', p)]), F('app/b.ucg', 2, [('import', 'main.ucg', p)]), F('lib/ok.ucg', 5)],
-                           nested='lib', cyclic=True))
-        out.append(project('2-cycle a <-> b in one directory below the main file at position %s' % p,
-                           [F('app/main.ucg', 1, [('import', '../lib/core/a.ucg', 'top')]), F('lib/core/a.ucg', 2, [('import', 'b.ucg', p)]),
-                            F('lib/core/b.ucg', 3, [('import', d + 'a.ucg', p)])], nested='lib', cyclic=True))
-    for p in sel:
-        out.append(project('self import (plain) below the main file at position %s' % p,
-                           [F('main.ucg', 1, [('import', 'app/a.ucg', 'topsel')]), F('app/a.ucg', 2, [('import', 'a.ucg', p)])], nested='app', cyclic=True))
-        out.append(project('main file imports itself at position %s' % p,
-                           [F('app/main.ucg', 1, [('import', 'x.ucg', 'top'), ('import', './main.ucg', p)]), F('app/x.ucg', 2)], nested='app', cyclic=True))
+        if not quick or n % 2 == 0:
+            out.append(project('2-cycle main <-> b in one directory at position %s' % p,
+                               [F('app/main.ucg', 1, [('import', '../lib/ok.ucg', 'top'), ('import', d + 'b.ucg', p)]), F('app/b.ucg', 2, [('import', 'main.ucg', p)]), F('lib/ok.ucg', 5)],
+                               nested='lib', cyclic=True))
+        if not quick or n % 2 == 1:
+            out.append(project('2-cycle a <-> b in one directory below the main file at position %s' % p,
+                               [F('app/main.ucg', 1, [('import', '../lib/core/a.ucg', 'top')]), F('lib/core/a.ucg', 2, [('import', 'b.ucg', p)]),
+                                F('lib/core/b.ucg', 3, [('import', d + 'a.ucg', p)])], nested='lib', cyclic=True))
+    for n, p in enumerate(sel):
+        if not quick or n % 2 == 0:
+            out.append(project('self import (plain) below the main file at position %s' % p,
+                               [F('main.ucg', 1, [('import', 'app/a.ucg', 'topsel')]), F('app/a.ucg', 2, [('import', 'a.ucg', p)])], nested='app', cyclic=True))
+        if not quick or n % 2 == 1:
+            out.append(project('main file imports itself at position %s' % p,
+                               [F('app/main.ucg', 1, [('import', 'x.ucg', 'top'), ('import', './main.ucg', p)]), F('app/x.ucg', 2)], nested='app', cyclic=True))
     out.append(project('4-cycle in one directory with mixed positions, entered after acyclic work',
                        [F('main.ucg', 1, [('import', 'lib/ok.ucg', 'top'), ('import', 'lib/core/a.ucg', 'map')]), F('lib/core/a.ucg', 2, [('import', '../ok.ucg', 'func'), ('import', 'b.ucg', 'topsel')]),
                         F('lib/core/b.ucg', 3, [('import', './c.ucg', 'modout')]), F('lib/core/c.ucg', 4, [('import', '../ok.ucg', 'modlet'), ('import', './././d.ucg', 'reduce')]),
                         F('lib/core/d.ucg', 6, [('import', 'a.ucg', 'mapfunc')]), F('lib/ok.ucg', 5)], nested='lib/core', cyclic=True))
     # (ii) cycles that cross directories (`..` on the cycle)
-    for p in cpos:
-        out.append(project('2-cycle main <-> b across directories at position %s' % p,
-                           [F('app/main.ucg', 1, [('import', '../lib/b.ucg', p)]), F('lib/b.ucg', 2, [('import', '../app/main.ucg', p)])], nested='lib', cyclic=True))
-        out.append(project('2-cycle a <-> b across directories below the main file at position %s' % p,
-                           [F('main.ucg', 1, [('import', 'app/a.ucg', 'top')]), F('app/a.ucg', 2, [('import', 'sub/b.ucg', p)]),
-                            F('app/sub/b.ucg', 3, [('import', './../a.ucg', p)])], nested='app', cyclic=True))
-    for p in sel:
+    for n, p in enumerate(cpos if not quick else ['top', 'topsel', 'func', 'map', 'modbody', 'fail']):
+        if not quick or n % 2 == 0:
+            out.append(project('2-cycle main <-> b across directories at position %s' % p,
+                               [F('app/main.ucg', 1, [('import', '../lib/b.ucg', p)]), F('lib/b.ucg', 2, [('import', '../app/main.ucg', p)])], nested='lib', cyclic=True))
+        if not quick or n % 2 == 1:
+            out.append(project('2-cycle a <-> b across directories below the main file at position %s' % p,
+                               [F('main.ucg', 1, [('import', 'app/a.ucg', 'top')]), F('app/a.ucg', 2, [('import', 'sub/b.ucg', p)]),
+                                F('app/sub/b.ucg', 3, [('import', './../a.ucg', p)])], nested='app', cyclic=True))
+    for p in (sel if not quick else ['topsel', 'modout']):
         out.append(project('self import (../app/a.ucg) below the main file at position %s' % p,
                            [F('main.ucg', 1, [('import', 'app/a.ucg', 'topsel')]), F('app/a.ucg', 2, [('import', '../app/a.ucg', p)])], nested='app', cyclic=True))
     out.append(project('3-cycle a -> b -> c -> a across directories with mixed positions',
@@ -659,18 +666,19 @@ def cycle_projects(tier, seed):
                         F('lib/b.ucg', 3, [('import', '.././app/sub/./a.ucg', 'topsel')])], nested='app/sub', cyclic=True))
     # (iii) random
     rnd = random.Random(seed * 104729 + 5)
-    for i in range(60 if tier == 'thorough' else 6):
+    for i in range(60 if tier == 'thorough' else 4):
         out.append(random_project(rnd, i, cyclic=True, flat=True))
-    for i in range(40 if tier == 'thorough' else 4):
+    for i in range(40 if tier == 'thorough' else 3):
         out.append(random_project(rnd, i, cyclic=True))
     return out
 
 
 def standin_cycles(tier, seed):
-    return run_all('cycles', 'project trees with an import cycle reached through evaluated positions (seed %d): 2-cycles through / below the main file at each of %d positions '
-                   '(files in one directory spelled x, ./x, ./././x; files in two directories spelled with ..), self imports at %s positions, 3-, 4-, 6-cycles, a respelled cycle, '
+    return run_all('cycles', 'project trees with an import cycle reached through evaluated positions (seed %d): 2-cycles through / below the main file over %d positions '
+                   '(files in one directory spelled x, ./x, ./././x; files in two directories spelled with ..; %s), self imports at %s positions, 3-, 4-, 6-cycles, a respelled cycle, '
                    'random DAGs of 2..8 files + a ring of 1..4 files in one directory, random DAGs + 1..2 back edges to an ancestor'
-                   % (seed, len(EAGER_IMPORT_POS) + 1, 'all' if tier == 'thorough' else '5'), cycle_projects(tier, seed))
+                   % (seed, len(EAGER_IMPORT_POS) + 1, 'both shapes at every position' if tier == 'thorough' else 'the shapes alternate over the positions, 6 positions across directories',
+                      'all' if tier == 'thorough' else '5', ), cycle_projects(tier, seed))
 
 
 STANDINS = [standin_positions, standin_spellings, standin_random_dags, standin_cycles]
